@@ -20,9 +20,12 @@ Cases == [parentUncles : BOOLEAN,                     \* the parent header inclu
           parentDiff : {"minimum", "large"},          \* 131072 (results are floored there) or 2^40
           claim : {"right", "otheruncle", "plus1", "parent"}]   \* the difficulty the header carries: the formula's value, the value for the
                                                       \* other uncle flag, the value plus one, the parent's difficulty
+(* genuinely sealed main-net headers (the repository's test data): the child of the header the client was created with is *)
+(* accepted as it is, and refused when its seal or its difficulty is touched                                             *)
+RealCases == [fam : {"real"}, mut : {"none", "nonce", "mixdigest", "difficulty", "second"}]   \* "second": the second child after the first
 (* the stage at which the header is refused; "same" marks cases in which the perturbed value happens to equal the right one *)
 Stage(x, same) == IF x.claim = "right" \/ same THEN "seal" ELSE "difficulty"
-Init == c \in Cases
+Init == c \in Cases \cup RealCases
 Next == UNCHANGED c
 Spec == Init /\ [][Next]_c
 Emit == PrintT(<<"MBT", ToJson(<< [act |-> "Pow"] @@ c >>)>>)
